@@ -11,7 +11,14 @@ def run(ck):
     w = ck.work
     p = wire_common.gen(ck)
     trace = os.path.join(w, "trace.ndjson")
-    rep = vh(["total", "record", "--out", trace, "--bases", p["base"], "--seed", ck.seed, "--per-item", 25 if q else 400, "--random", 2000 if q else 100000,
+    from lib.common import tlc, tlc_must_pass
+    tabs = []
+    for code in ("bech32", "blech32"):
+        t = os.path.join(w, "tab_%s.ndjson" % code)
+        tlc_must_pass(tlc("Gen_Checksum", "Gen_Checksum_%s.cfg" % code, os.path.join(w, code), env={"OUT": os.path.join(w, "lfsr_%s.ndjson" % code), "OUT_TABLES": t},
+                          workers=1, timeout=600), "C10 tables")
+        tabs += ["--tab-" + code, t]
+    rep = vh(["total", "record", "--out", trace, "--bases", p["base"], "--seed", ck.seed] + tabs + [ "--per-item", 25 if q else 400, "--random", 2000 if q else 100000,
               "--sample-every", 1 if q else 25], timeout=14000, crash=(ck, "C10/crash/signal", trace + ".last"))
     if rep["stats"]:
         ck.add_vh(rep)
